@@ -3,3 +3,4 @@ import XoGen.TieStrides
 import XoGen.TieChunk
 import XoGen.TieIndex
 import XoGen.TieOrder
+import XoGen.TieBuf
